@@ -28,6 +28,7 @@ use crate::codec::family::Family;
 use crate::common::NumStdDev;
 use crate::error::Error;
 use crate::hll::estimator::HipEstimator;
+use crate::hll::estimator::check_kxq;
 use crate::hll::get_slot;
 use crate::hll::get_value;
 use crate::hll::serialization::CUR_MODE_HLL;
@@ -223,6 +224,20 @@ impl Array6 {
             .read_exact(&mut data)
             .map_err(insufficient_data("data"))?;
 
+        // The cached counters must describe the registers just read.
+        let restored = Self {
+            lg_config_k,
+            bytes: data.into_boxed_slice(),
+            num_zeros,
+            estimator: HipEstimator::new(lg_config_k),
+        };
+        let values = (0..k).map(|slot| restored.get_raw(slot));
+        if values.clone().filter(|&v| v == 0).count() as u32 != num_zeros {
+            return Err(Error::deserial("corrupted: zero count is inconsistent"));
+        }
+        check_kxq(values, kxq0, kxq1)?;
+        let data = restored.bytes;
+
         // Create estimator and restore state
         let mut estimator = HipEstimator::new(lg_config_k);
         estimator.set_hip_accum(hip_accum);
@@ -232,7 +247,7 @@ impl Array6 {
 
         Ok(Self {
             lg_config_k,
-            bytes: data.into_boxed_slice(),
+            bytes: data,
             num_zeros,
             estimator,
         })
